@@ -103,6 +103,8 @@ func main() {
 		runC14()
 	case "c12":
 		runC12()
+	case "c18":
+		runC18()
 	default:
 		fmt.Fprintln(os.Stderr, "unknown property", cmd)
 		os.Exit(2)
